@@ -5,6 +5,7 @@
   of every theorem.
 -/
 import MvModel.Pii
+import MvProps.C36LemmasPass
 namespace Mv.Pii
 open Mv.Regex
 
@@ -63,14 +64,37 @@ def witnessMasked2 : List Nat := [91,83,83,78,93,91,80,72,79,78,69,93]
 example : ofCps witness = "1234567890123456789" ∧ ofCps witnessMasked = "123456789[PHONE]"
     ∧ ofCps witnessMasked2 = "[SSN][PHONE]" := by decide
 
+theorem maskWith_step (T : Tables) (p : Re × List Nat) (ps : List (Re × List Nat)) (s s' : List Nat)
+    (h : replaceAll T p.1 p.2 s = s') : maskWith T (p :: ps) s = maskWith T ps s' := by
+  subst h; rfl
+
+/- pass by pass (EMAIL, SSN, CREDIT_CARD leave the run alone; PHONE cuts it; the rest change nothing) -/
 set_option maxRecDepth 100000 in
-theorem witness_masked (T : Tables) : maskPii T witness = witnessMasked := by rfl
+theorem witness_masked (T : Tables) : maskPii T witness = witnessMasked := by
+  unfold maskPii Gen.C36.maskOrder
+  refine (maskWith_step T _ _ witness witness (by rfl)).trans ?_
+  refine (maskWith_step T _ _ witness witness (by rfl)).trans ?_
+  refine (maskWith_step T _ _ witness witness (by rfl)).trans ?_
+  refine (maskWith_step T _ _ witness witnessMasked (by rfl)).trans ?_
+  refine (maskWith_step T _ _ witnessMasked witnessMasked (by rfl)).trans ?_
+  refine (maskWith_step T _ _ witnessMasked witnessMasked (by rfl)).trans ?_
+  refine (maskWith_step T _ _ witnessMasked witnessMasked (by rfl)).trans ?_
+  rfl
 
 set_option maxRecDepth 100000 in
 theorem witness_still_detected (T : Tables) : containsPii T witnessMasked = true := by rfl
 
 set_option maxRecDepth 100000 in
-theorem witness_masked_twice (T : Tables) : maskPii T witnessMasked = witnessMasked2 := by rfl
+theorem witness_masked_twice (T : Tables) : maskPii T witnessMasked = witnessMasked2 := by
+  unfold maskPii Gen.C36.maskOrder
+  refine (maskWith_step T _ _ witnessMasked witnessMasked (by rfl)).trans ?_
+  refine (maskWith_step T _ _ witnessMasked witnessMasked2 (by rfl)).trans ?_
+  refine (maskWith_step T _ _ witnessMasked2 witnessMasked2 (by rfl)).trans ?_
+  refine (maskWith_step T _ _ witnessMasked2 witnessMasked2 (by rfl)).trans ?_
+  refine (maskWith_step T _ _ witnessMasked2 witnessMasked2 (by rfl)).trans ?_
+  refine (maskWith_step T _ _ witnessMasked2 witnessMasked2 (by rfl)).trans ?_
+  refine (maskWith_step T _ _ witnessMasked2 witnessMasked2 (by rfl)).trans ?_
+  rfl
 
 /-- **C36 clauses 1 and 2 fail** (for every choice of Unicode tables: the witness is ASCII):
     the PHONE pass eats the last 10 digits of a 19-digit run, leaving an SSN-shaped 9-digit run. -/
@@ -91,6 +115,107 @@ theorem C36_not_idempotent (T : Tables) : maskPii T (maskPii T witness) ≠ mask
 theorem C36_idempotent_of_clean (T : Tables) (s : List Nat) (h : containsPii T (maskPii T s) = false) :
     maskPii T (maskPii T s) = maskPii T s :=
   C36_unchanged T (maskPii T s) h
+
+set_option maxRecDepth 100000 in
+/-- static facts about the generated patterns and tokens, for every choice of Unicode tables (the
+    tokens are ASCII): each pattern is well-formed and cannot match the empty string; for each pattern and
+    each token, the token's `[` and `]` are non-word, rejected by every class of the pattern, and the
+    pattern matches nowhere inside the token. -/
+theorem gen_passesOK (T : Tables) : passesOKB T Gen.C36.maskOrder = true := by rfl
+
+/-- every pattern contains_pii tests has a pass in mask_pii -/
+theorem containsOrder_subset : ∀ q ∈ Gen.C36.containsOrder, ∃ t, (q, t) ∈ Gen.C36.maskOrder := by
+  have h : ∀ q ∈ Gen.C36.containsOrder, q ∈ Gen.C36.maskOrder.map Prod.fst := by
+    simp [Gen.C36.maskOrder, Gen.C36.containsOrder]
+  intro q hq
+  obtain ⟨p, hp, rfl⟩ := List.mem_map.mp (h q hq)
+  exact ⟨p.2, hp⟩
+
+/-- **C36 clauses 1–2, partial.**  `maskSafe T s` (executable; computed by the model driver for every
+    harness case) says: in every pass, run on the text the previous passes produced, no replaced match
+    starts with a word character directly after a word character or ends with one directly before a word
+    character — i.e. no replacement creates a word boundary.  Then the masked text contains nothing
+    contains_pii detects, and masking is idempotent. -/
+theorem C36_partial (T : Tables) (s : List Nat) (h : maskSafe T s = true) :
+    containsPii T (maskPii T s) = false ∧ maskPii T (maskPii T s) = maskPii T s := by
+  have hclean : containsPii T (maskPii T s) = false := by
+    simp only [containsPii, containsWith, List.any_eq_false, Bool.not_eq_true]
+    intro q hq
+    obtain ⟨t, ht⟩ := containsOrder_subset q hq
+    exact maskWith_clean T Gen.C36.maskOrder (passesOKB_sound T _ (gen_passesOK T)) Gen.C36.maskOrder
+      (fun _ hp => hp) s h q t ht (Or.inr ⟨t, ht⟩)
+  exact ⟨hclean, C36_unchanged T _ hclean⟩
+
+/-- which passes have a pattern of the form `\b…\b` (these can never create a boundary): all but PHONE -/
+theorem only_phone_unanchored :
+    Gen.C36.maskOrder.map (fun p => startsB p.1 && endsB p.1) = [true, true, true, false, true, true, true] := by
+  rfl
+
+/-- the hypothesis of `C36_partial` only concerns passes whose pattern is not `\b…\b` (by
+    `only_phone_unanchored`: the PHONE pass, whose first alternative has no leading `\b`) -/
+theorem maskSafe_eq_unanchored (T : Tables) (s : List Nat) :
+    maskSafe T s = safeWithU T Gen.C36.maskOrder s :=
+  safeWith_eq_U T _ (fun p hp => ((passesOKB_sound T _ (gen_passesOK T)) p hp).2.1) s
+
+/-- **the defect is necessary for a failure**: whenever clause 1 or 2 fails, some PHONE-pass match
+    created a word boundary -/
+theorem C36_failure_needs_boundary (T : Tables) (s : List Nat)
+    (h : containsPii T (maskPii T s) = true ∨ maskPii T (maskPii T s) ≠ maskPii T s) :
+    safeWithU T Gen.C36.maskOrder s = false := by
+  cases hs : safeWithU T Gen.C36.maskOrder s with
+  | false => rfl
+  | true =>
+    rw [← maskSafe_eq_unanchored] at hs
+    obtain ⟨h1, h2⟩ := C36_partial T s hs
+    rcases h with h | h
+    · rw [h1] at h; cases h
+    · exact absurd h2 h
+
+/-- non-vacuity of `C36_partial`: a text with an e-mail address, a phone number and an SSN satisfies the
+    hypothesis, and masking changes it -/
+example : maskSafe Gen.C36.tables (cps "Contact john@example.com at 555-123-4567. SSN: 123-45-6789") = true
+    ∧ ofCps (maskPii Gen.C36.tables (cps "Contact john@example.com at 555-123-4567. SSN: 123-45-6789"))
+      = "Contact [EMAIL] at [PHONE]. SSN: [SSN]" := by decide
+
+/-- the witness of the counterexample violates the hypothesis, as it must -/
+example : maskSafe Gen.C36.tables witness = false := by decide
+
+theorem safeWithU_of_anchored (T : Tables) : ∀ (passes : List (Re × List Nat)),
+    (∀ p ∈ passes, startsB p.1 = true ∧ endsB p.1 = true) → ∀ s, safeWithU T passes s = true
+  | [], _, _ => rfl
+  | p :: ps, h, s => by
+    obtain ⟨h1, h2⟩ := h p (List.mem_cons_self ..)
+    simp only [safeWithU, h1, h2, Bool.and_self, Bool.true_or, Bool.true_and]
+    exact safeWithU_of_anchored T ps (fun q hq => h q (List.mem_cons_of_mem _ hq)) _
+
+/-- **what a repair has to achieve** (generic in the pattern family): for ANY list of passes whose
+    patterns all begin and end with `\b`, are well-formed and non-nullable, and whose tokens are inert
+    for them (`PassesOK`), sequential masking leaves nothing that any of the patterns detects and is
+    idempotent — on every string.  The current family fails only the first premise, for PHONE. -/
+theorem C36_full_of_anchored (T : Tables) (passes : List (Re × List Nat)) (hok : PassesOK T passes)
+    (hanch : ∀ p ∈ passes, startsB p.1 = true ∧ endsB p.1 = true) (s : List Nat) :
+    containsWith T (passes.map Prod.fst) (maskWith T passes s) = false
+      ∧ maskWith T passes (maskWith T passes s) = maskWith T passes s := by
+  have hsafe : safeWith T passes s = true := by
+    rw [safeWith_eq_U T passes (fun p hp => (hok p hp).2.1)]
+    exact safeWithU_of_anchored T passes hanch s
+  have hclean : ∀ p ∈ passes, isMatch T p.1 (maskWith T passes s) = false := fun p hp =>
+    maskWith_clean T passes hok passes (fun _ h => h) s hsafe p.1 p.2 hp (Or.inr ⟨p.2, hp⟩)
+  refine ⟨?_, maskWith_noMatch T _ passes hclean⟩
+  simp only [containsWith, List.any_eq_false, Bool.not_eq_true]
+  intro q hq
+  obtain ⟨p, hp, rfl⟩ := List.mem_map.mp hq
+  exact hclean p hp
+
+/-- clauses 1 and 2 as a Boolean -/
+def fullOn (T : Tables) (s : List Nat) : Bool :=
+  !containsPii T (maskPii T s) && (maskPii T (maskPii T s) == maskPii T s)
+
+set_option maxRecDepth 1000000 in
+/-- exhaustive over bare runs of the digit 5 up to length 29 (generated Unicode tables, kernel
+    evaluation): clauses 1–2 hold exactly for the runs shorter than 19 -/
+theorem C36_digit_runs : ∀ n < 30, fullOn Gen.C36.tables (List.replicate n 53) = decide (n < 19) := by
+  decide +kernel
 
 /-- non-vacuity of `C36_unchanged`: ordinary text with numbers is PII-free and is returned unchanged -/
 example : containsPii Gen.C36.tables (cps "Invoice #12345 for $100.00") = false := by decide
